@@ -472,7 +472,17 @@ def is_not_tuple_default(S, nf):
         return False
     t = nf[2]
     want = ('matches', ('field', ('payload', 'Data::Struct', 0, ('field', ('param', 'ast'), 'data')), 'fields'), 'Fields::Unnamed(_)')
-    return isinstance(t, tuple) and t[0] == 'iflet' and t[3] == want and t[4] == ('lit', 'Bool', True)
+    if isinstance(t, tuple) and t[0] == 'iflet' and t[3] == want and t[4] == ('lit', 'Bool', True):
+        return True
+    # the exhaustive spelling `match &ast.data { Data::Struct(d) => matches!(..), Data::Enum(_) | Data::Union(_) => true }`
+    from ..terms import match_arms
+    ma = match_arms(t)
+    if ma is not None and ma[0] == ('field', ('param', 'ast'), 'data'):
+        arms = dict(ma[1])
+        st_ = [v for p_, v in arms.items() if p_.startswith('Data::Struct')]
+        rest = [v for p_, v in arms.items() if not p_.startswith('Data::Struct')]
+        return len(st_) == 1 and st_[0] == want and bool(rest) and all(v == ('lit', 'Bool', True) for v in rest)
+    return False
 
 
 def check_name_string(S, nst, V):
@@ -544,7 +554,12 @@ def check_enum(cx, fn, rep, facts):
             h = stringify_hole(e['args'][0])
             okn = h and isinstance(S.hole_term(b, h), tuple) and S.hole_term(b, h)[0] == 'some_of' and name_term_ok(S, S.hole_term(b, h)[1], ('field', ('param', 'ast'), 'ident'))
             from ..emptiness import empty_evidence
-            okg = empty_evidence(atoms, S.cx, S.fw) and any(a[0] == 'some' and a[2] is True for a in atoms)
+            okg = empty_evidence(atoms, S.cx, S.fw) and (any(a[0] == 'some' and a[2] is True for a in atoms)
+                                                           or any(a[0] == 'survive' and len(a[2]) == 1 and a[2][0].startswith('Some(') for a in atoms))
+            if okg and not okn and h and isinstance(S.hole_term(b, h), tuple) and len(S.hole_term(b, h)) == 5 and S.hole_term(b, h)[0] == 'iflet' \
+                    and S.hole_term(b, h)[3] == ('some_of', S.hole_term(b, h)[2]) and S.hole_term(b, h)[4] == ('never',):
+                # `let name = name.ok_or_else(|| unit_enum_need_name(..))?;`: the hole is the payload
+                okn = name_term_ok(S, S.hole_term(b, h)[2], ('field', ('param', 'ast'), 'ident'))
             if not (okn and okg):
                 S.bad('SUM-DEBUG', 'enum-empty', 'an empty enum must print its shown name (and be refused without one)', b)
                 ok = False
@@ -562,7 +577,9 @@ def check_enum(cx, fn, rep, facts):
     by_shape = variant_arms(S, 'SUM-DEBUG', b, marker_of_pat(e['arms'][0]['pat']),
                             allow=lambda x: x[0] == 'nand' or (x[0] == 'some' and x[2] is True and isinstance(x[1], tuple) and x[1][0] == 'iflet')
                             # the same residual spelled `let name = match name { Some(n) => n, None => return Err(..) };`
-                            or (x[0] == 'survive' and isinstance(x[1], tuple) and x[1][0] == 'iflet' and len(x[2]) == 1 and x[2][0].startswith('Some(')))
+                            or (x[0] == 'survive' and isinstance(x[1], tuple) and x[1][0] == 'iflet' and len(x[2]) == 1 and x[2][0].startswith('Some('))
+                            # .. or as the De Morgan form in a helper: `if has_fields || name.is_some() { Ok(()) } else { Err(..) }`
+                            or (x[0] == 'or' and x[2] is True and len(x[1]) == 2 and sorted(y[0] for y in x[1]) == ['some', 'truth']))
     if by_shape is None:
         return
     for sh, lst in by_shape.items():
